@@ -1,4 +1,4 @@
-//go:build verif
+//go:build verif && (p_all || p_c13)
 
 package props
 
@@ -420,5 +420,47 @@ func c13Run(c *mon.Ctx, csAny any) {
 		_ = recvVal
 	default:
 		panic("harness: unknown op " + cs.Op)
+	}
+}
+
+func c13RunConc(c *mon.Ctx, seed uint64) {
+	r := concRng("C13", seed)
+
+	var jobs []func() string
+
+	for i := 0; i < concJobs; i++ {
+		a, b := gen.Draw(r, oracle.N).X, gen.Draw(r, oracle.N).X
+		if i%3 == 0 {
+			b = new(big.Int).Set(a)
+		}
+
+		s, t := mon.Scal(a), mon.Scal(b)
+		le, eq := uint64(0), 0
+
+		if a.Cmp(b) <= 0 {
+			le = 1
+		}
+
+		if a.Cmp(b) == 0 {
+			eq = 1
+		}
+
+		cond := r.U64() | 1
+		jobs = append(jobs, func() string {
+			if s.LessOrEqual(t) != le || s.Equal(t) != eq || s.IsZero() != (a.Sign() == 0) || s.IsOne() != (a.Cmp(big.NewInt(1)) == 0) {
+				return fmt.Sprintf("comparison of %x and %x", a, b)
+			}
+
+			recv := secp256k1.NewScalar()
+			if err := recv.CSelect(cond, s, t); err != nil || recv.S != t.S {
+				return fmt.Sprintf("CSelect(%#x, %x, %x) = %x", cond, a, b, mon.ScalVal(recv))
+			}
+
+			return ""
+		})
+	}
+
+	if c.RunConcurrent("scalar comparison / CSelect", "cmp-concurrent", 3000, jobs) {
+		c.Seen("conc", seed)
 	}
 }
